@@ -207,6 +207,17 @@ def designed():
     out.append([("defi", "here", [], [L, J, ("op", "push1", ("lbl", "top"))]), ("macro", "here", [("num", 7)])] + tail)
     out.append([inner, ("defi", "outer", ["a", "b"], [("macro", "inner", [("var", "a"), ("var", "b")])]), ("macro", "outer", [("num", 1), ("num", 2)])] + tail)
     out.append([inner, ("defi", "outer", ["a", "b"], [("macro", "inner", [])]), ("macro", "outer", [("num", 1), ("num", 2)])] + tail)
+    # an argument that mentions a variable which nothing binds at the call site, named like a LATER parameter of the
+    # callee: substitution is simultaneous, the variable must stay unbound (the invocation fails like its expansion);
+    # a repeated parameter name: the last argument wins
+    pair = ("defi", "pair", ["a", "b"], [("op", "push1", ("var", "a")), ("op", "push1", ("var", "b"))])
+    out.append([pair, ("macro", "pair", [("var", "b"), ("num", 5)])] + tail)
+    out.append([pair, ("macro", "pair", [G.climb([("var", "b"), "+", ("num", 1)]), ("num", 5)])] + tail)
+    out.append([("defi", "inner2", ["a", "c"], [("op", "push1", G.climb([("var", "a"), "+", ("var", "c")]))]),
+                ("defi", "outer2", ["x"], [("macro", "inner2", [G.climb([("var", "c"), "+", ("var", "x")]), ("num", 7)])]), ("macro", "outer2", [("num", 1)])] + tail)
+    out.append([("defi", "inner2", ["a", "c"], [("push", G.climb([("var", "a"), "+", ("var", "c")]))]),
+                ("defi", "outer2", ["c"], [("macro", "inner2", [("var", "c"), ("num", 7)])]), ("macro", "outer2", [("num", 1)])] + tail)
+    out.append([("defi", "dup", ["a", "a"], [("op", "push1", ("var", "a"))]), ("macro", "dup", [("num", 1), ("num", 2)])] + tail)
     # user labels spelled like the names a macro-local label could be given (macro_label_suffix with small or
     # predictable suffixes): they are ordinary labels, never captured by / clashing with an expansion
     body = [L, J, ("op", "push1", ("lbl", "top"))]
